@@ -505,6 +505,63 @@ func gen(a Args, out *Out) {
 		})
 	}
 
+	// 10. the id counter at the top of its range while small ids are still pending: the
+	// start that wraps must skip the ids in use, and so must every start after it (ids
+	// handed out are unique among pending timers); Size/IsScheduled/Cancel/deliveries
+	// must stay those of distinct timers.  (The counter is positioned by the harness.)
+	for k := 0; k < 16*scale && k < 160; k++ {
+		both(func(impl int64) {
+			r := rng.Fork()
+			h := drv.NewHist(impl, pos(r), 0)
+			n := r.Range(3, 8)
+			for i := 0; i < n; i++ {
+				if r.Chance(1, 4) {
+					h.Every(int64(r.Range(3, 9)))
+				} else {
+					h.Start(int64(r.Range(5, 30)))
+				}
+				h.HandleAdd()
+			}
+			// free some of the small ids (cancelled and unlinked at once)
+			for i := 1; i <= n; i++ {
+				if r.Chance(1, 3) {
+					h.Cancel(int64(i))
+					h.HandleDel()
+				}
+			}
+			h.Size()
+			const maxInt = int64(^uint64(0) >> 1)
+			h.Jump(maxInt - int64(r.Range(0, 2)))
+			m := r.Range(2, 8)
+			for i := 0; i < m; i++ {
+				h.Start(int64(r.Range(1, 30)))
+				h.HandleAdd()
+				if r.Chance(1, 4) {
+					h.Size()
+				}
+			}
+			for i := int64(1); i <= int64(n+m); i++ {
+				h.IsSched(i)
+			}
+			h.IsSched(maxInt)
+			h.IsSched(maxInt - 1)
+			h.Size()
+			if r.Bool() {
+				h.Cancel(int64(r.Range(1, n+m)))
+				h.HandleDel()
+				h.Cancel(maxInt)
+				h.HandleDel()
+			}
+			h.Probe()
+			for tck := 0; tck < 32; tck++ {
+				h.Adv(1)
+			}
+			h.Size()
+			h.Probe()
+			emit("idwrap", h)
+		})
+	}
+
 	// 7. the REAL worker goroutine with nobody reading Chan(): the worker gets stuck
 	// delivering, every id is cancelled, then Chan() is drained; counting only (see drv.Live)
 	for k := 0; k < 1*scale && k < 4; k++ {
